@@ -18,9 +18,9 @@ Here is a semantic property the code base is supposed to satisfy:
 YOUR TASK: produce ONE realistic source change (the kind of regression a real refactoring, optimisation, feature addition or "cleanup" commit could introduce) that BREAKS this property while
   (a) the code still compiles (`cd {wt}/teamserver && go build ./...`), and
   (b) the existing test suite still passes exactly as before: `cd {wt}/teamserver && go test -mod=mod -vet=off -count=1 ./... 2>&1 | grep -E "^(ok|FAIL|---)" ` — note that on the untouched tree two packages already FAIL (yaotl/ext/typeexpr TestGetTypeJSON and yaotl/hclwrite TestBlockLabels); your change must not alter that picture.
-The change must need something SPECIFIC to manifest — a particular interleaving, a fault at a particular point, a multi-step sequence of operations, an unusual but legal input, or two cooperating sites that each look fine alone — not something any ordinary use would expose at once. Keep it small (a few lines to a few dozen) and plausible; do not add dead code, obviously malicious code or comments that give it away. Variant number for this request: {n} — if you can think of several candidate changes, pick the {'first' if n=='1' else 'second, different in kind from the most obvious one,'} one.
+The change must need something SPECIFIC to manifest — a particular interleaving, a fault at a particular point, a multi-step sequence of operations, an unusual but legal input, or two cooperating sites that each look fine alone — not something any ordinary use would expose at once. Keep it small (a few lines to a few dozen) and plausible; do not add dead code, obviously malicious code or comments that give it away. Variant number for this request: {n} — if you can think of several candidate changes, pick the {'first one' if n=='1' else ('second one, different in kind from the most obvious one' if n=='2' else 'least obvious one you can make work: located in a different function or file than where one would look first (a helper, a caller, an initialisation or persistence path, a rarely used option or message kind), or needing a longer history / rarer input shape to show')}.
 
-Also write a DEMONSTRATION: a Go test file (or small program) placed inside the worktree that FAILS with your change applied and PASSES on the untouched tree, exercising the real code (not a mock). Verify both directions yourself (do NOT use `git stash` (it is shared with other worktrees of this repository); use `git diff > /tmp/x.diff; git checkout -- .; ...; git apply /tmp/x.diff`).
+Also write a DEMONSTRATION: a Go test file (or small program) placed inside the worktree that FAILS with your change applied and PASSES on the untouched tree, exercising the real code (not a mock). Verify both directions yourself (do NOT use `git stash` (it is shared with other worktrees of this repository); use `git diff > /tmp/x-{pid}-{n}.diff; git checkout -- .; ...; git apply /tmp/x-{pid}-{n}.diff; and remove that file when done`).
 
 DELIVERABLES, written into the directory {wt}/SEED/ (create it):
   - patch.diff   : `git diff` of your source change only (relative to the worktree root, applicable with `git apply` from the repository root), NOT including the demonstration
